@@ -190,7 +190,9 @@ where
     F: DataType + Float,
 {
     fn from(value: u8) -> Self {
-        Val::Int(I::from(value).unwrap())
+        // The neutral elements 0 and 1 created from u8 become constants of partial derivatives.
+        // As integers they would turn divisions of the quotient rule into integer divisions.
+        Val::Float(F::from(value).unwrap())
     }
 }
 
